@@ -1,0 +1,14 @@
+//go:build verif
+
+// Contracts for package ptr, checked by /verif (govc). Comment-only file.
+package ptr
+
+//@ func New
+//@   property C13
+//@   ensures [nonnil] result != nil
+//@   ensures [value] *result == i
+
+//@ func Dereference pure
+//@   property C13 C15
+//@   ensures [value] ptr != nil ==> result == *ptr
+//@   ensures [default] ptr == nil ==> result == default_
